@@ -19,7 +19,7 @@ ASSUMPTIONS = ['tilt-free wavefronts only (tilt is C04)', 'all-zero masks are re
 PLAN = {'quick': {'gen': 8}, 'thorough': {'gen': 16, 'tests': 1, 'docs': 1}}
 REQUIRED_BUCKETS = ['in:ee', 'in:oo', 'in:eo', 'in:oe', 'out:even', 'out:odd', 'dx:iso', 'dx:aniso', 'du:iso', 'du:aniso',
                     'prop<shape', 'prop=shape', 'mask', 'nomask', 'dir:pupil->image', 'dir:image->pupil', 'chain:2',
-                    'mask+prop', 'repeated', 'segmented', 'shape:small-int', 'scalars:float32', 'broadband', 'fft:broadband-scratch', 'alpha:near-critical', 'fft:explicit-shape', 'fft:explicit-shape:odd', 'mask:object-reused', 'amp:any-magnitude']
+                    'mask+prop', 'repeated', 'segmented', 'shape:small-int', 'scalars:float32', 'broadband', 'fft:broadband-scratch', 'alpha:near-critical', 'fft:explicit-shape', 'fft:explicit-shape:odd', 'mask:object-reused', 'amp:any-magnitude', 'fft:anamorphic', 'fft:even-grid:half-sum-parity=0', 'fft:even-grid:half-sum-parity=1', 'fft:grid-parity=01', 'fft:grid-parity=10']
 REQUIRED_ANCHORS = ['probe:propagate_dft', 'probe:propagate_fft', 'anchor:_dft_alpha', 'anchor:_mask_shift', 'anchor:dft2',
                     'anchor:intersection_shift']
 REQUIRED_ORACLES = ['dft=fraunhofer', 'dft=fraunhofer:meta', 'dft=fraunhofer:outside=0', 'fft=fraunhofer', 'fft=fraunhofer:meta']
@@ -113,6 +113,43 @@ def fft_broadband(ctx, lentil, rng):
                 ctx.check(False, 'fft=fraunhofer', f'fft-broadband|raises={type(e).__name__}', str(e), {'wl': wl})
 
 
+def fft_anamorphic(ctx, lentil, rng):
+    """The FFT propagator with a different output pixel scale on each axis (anamorphic relay, rectangular detector pixels): the
+    padded grid is then not square - every combination of parities and sizes; the online oracle checks every call."""
+    for i in range(ctx.count(24, 120)):
+        os_ = int(rng.integers(1, 4))
+        pshape = gen.rshape(rng, 3, 14)
+        A = gen.support(rng, pshape)
+        dx0 = float(rng.uniform(0.5e-3, 5e-3))
+        z = float(rng.uniform(0.5, 30))
+        wl = float(rng.uniform(4e-7, 1e-6))
+        lo = max(pshape) + 2
+        Gr = int(rng.integers(lo, 3 * lo))
+        Gc = Gr + int(rng.choice([-6, -4, -3, -2, -1, 1, 2, 3, 4, 6]))
+        Gc = max(Gc, lo)
+        if i % 4 == 0:
+            # even by even with an odd half-sum, and the reverse
+            Gr, Gc = Gr + Gr % 2, Gc + Gc % 2
+            if ((Gr + Gc) // 2) % 2 == (i // 4) % 2:
+                Gc += 2
+        frac = (0.0, 0.0) if i % 3 else (float(rng.uniform(-0.3, 0.3)), float(rng.uniform(-0.3, 0.3)))
+        du = (wl * z * os_ / (dx0 * (Gr + frac[0])), wl * z * os_ / (dx0 * (Gc + frac[1])))
+        ctx.case({'fft-anamorphic': [Gr, Gc], 'frac': list(frac), 'pupil': list(pshape), 'os': os_}, ['fft:anamorphic', f'fft:grid-parity={Gr % 2}{Gc % 2}'])
+        if Gr % 2 == 0 and Gc % 2 == 0:
+            ctx.bucket(f'fft:even-grid:half-sum-parity={((Gr + Gc) // 2) % 2}')
+        pupil = lentil.Pupil(amplitude=gen.amplitude(rng, A), opd=gen.opd(rng, pshape, wl), pixelscale=dx0, focal_length=z)
+        try:
+            kw = {}
+            if i % 2:
+                gs = (Gr // os_, Gc // os_)
+                kw['shape'] = (int(rng.integers(1, gs[0] + 1)), int(rng.integers(1, gs[1] + 1)))
+            if i % 5 == 1:
+                kw['scratch'] = np.zeros((Gr + int(rng.integers(0, 4)), Gc + int(rng.integers(0, 4))), complex)
+            lentil.propagate_fft(lentil.Wavefront(wl) * pupil, du, oversample=os_, **kw)
+        except Exception as e:
+            ctx.check(False, 'fft=fraunhofer', f'fft-anamorphic|raises={type(e).__name__}', str(e), {'G': [Gr, Gc], 'os': os_})
+
+
 def near_critical(ctx, lentil, rng):
     """Samplings a few parts per million away from alpha = 1/n with the output array of the pupil's own size: an ordinary
     alpha like any other (a wavelength sweep passes through such values)."""
@@ -143,6 +180,7 @@ def workload(ctx, lentil):
     rng = ctx.rng
     broadband(ctx, lentil, rng)
     fft_broadband(ctx, lentil, rng)
+    fft_anamorphic(ctx, lentil, rng)
     near_critical(ctx, lentil, rng)
     n = ctx.count(150, 1000)
     hi = 24 if ctx.tier == 'quick' else 48
